@@ -21,7 +21,7 @@ PROP = 'C14'
 MANIFEST = dict(
     category='exploration', design_ref='DESIGN.md §3 C14',
     technique='bounded-exhaustive enumeration of hypernym graphs x ordered pairs x simulate_root x IC weight tables on the real similarity functions vs the documented formulas over a reference graph model (acceptance sets for LCS choice)',
-    text='For every labelled digraph with self-loops on up to 3 nodes, every loop-free digraph on 4 nodes (thorough: DAGs on 5 nodes) and part-of-speech colourings, every ordered pair of synsets and simulate_root value: path must equal 1/(p+1) with p the reference shortest-path length (0.0 when nothing is shared, 1.0 for identical synsets, within [0,1]); lch must equal -log((p+1)/2d) for every tried depth d and raise for d<=0; wup must equal 2k/(i+j+2k) for some reference lowest common hypernym (i, j reference distances, k its depth in nodes), lie in (0,1], be 1.0 for identical synsets and never exceed self-similarity; res/jcn/lin must follow their formulas (incl. the documented zero/infinity cases) for some reference LCS over every weight table (all assignments of {1,2,5} to the nodes); every metric must be symmetric in its arguments; the same graphs are also presented in expanded mode (stored in an expand lexicon, only 2..n of the nodes present in the queried lexicon, the others seen as *INFERRED* placeholders) for path, lch and wup; wn.Error must be raised exactly for incompatible parts of speech (a and s compatible) and when nothing is shared without simulate_root. Exact formula comparison on DAGs; on cyclic graphs bounds, symmetry, error rule and termination.',
+    text='For every labelled digraph with self-loops on up to 3 nodes, every loop-free digraph on 4 nodes (thorough: DAGs on 5 nodes) and part-of-speech colourings, every ordered pair of synsets and simulate_root value: path must equal 1/(p+1) with p the reference shortest-path length (0.0 when nothing is shared, 1.0 for identical synsets, within [0,1]); lch must equal -log((p+1)/2d) for every tried depth d and raise for d<=0; wup must equal 2k/(i+j+2k) for some reference lowest common hypernym (i, j reference distances, k its depth in nodes), lie in (0,1], be 1.0 for identical synsets and never exceed self-similarity; res/jcn/lin must follow their formulas (incl. the documented zero/infinity cases) for some reference LCS over every weight table (all assignments of {1,2,5} to the nodes); every metric must be symmetric in its arguments; the same graphs are also presented in expanded mode (stored in an expand lexicon, only 2..n of the nodes present in the queried lexicon, the others seen as *INFERRED* placeholders) for path, lch and wup, and in extension mode (one node, one edge or all edges contributed by a lexicon extension, queried together with the base) for all six metrics; wn.Error must be raised exactly for incompatible parts of speech (a and s compatible) and when nothing is shared without simulate_root. Exact formula comparison on DAGs; on cyclic graphs bounds, symmetry, error rule and termination.',
     note='Where the documentation contradicts itself (res: maximum IC vs LCS of highest weight; lin denominator) either documented reading is accepted; a value outside all readings is a violation.',
 )
 
@@ -38,7 +38,11 @@ def check_graph(lid, g, edges, V, obs):
     n = g['n']
     ref = Ref(n, edges)
     pos = g.get('pos') or 'n' * n
-    if 'real' in g:
+    if 'ext' in g:
+        # extension mode (see c13.build_lexicon): part of the graph is declared by the lexicon extension <lid>x
+        w = wn.Wordnet(lexicon=f'{lid}:1 {lid}x:1', expand='')
+        idx = list(range(n))
+    elif 'real' in g:
         # expanded mode (see c13.build_lexicon): the graph is borrowed from the expand lexicon <lid>q, only the
         # nodes of the 'real' mask exist in the queried lexicon, the rest are *INFERRED* placeholders
         w = wn.Wordnet(lexicon=f'{lid}:1', expand=f'{lid}q:1')
@@ -212,7 +216,9 @@ def check(case):
             lex, edges, hypo = build_lexicon(lid, g)
             lexs.extend(lex)
             built.append((lid, g, edges))
-        env.add_resource(mk.resource(lexs, '1.0'))
+        env.add_resource(mk.resource([x for x in lexs if not x.get('extends')], '1.0'))
+        if any(x.get('extends') for x in lexs):
+            env.add_resource(mk.resource([x for x in lexs if x.get('extends')], '1.1'))
         nt = 0
         for lid, g, edges in built:
             obs = []
@@ -263,6 +269,14 @@ def space(tier, seed):
     for h in (dag_masks(4) if tier == 'quick' else range(1 << 12)):
         for r in ((2,) if tier == 'quick' else (2, 3)):
             gs.append({'n': 4, 'loops': False, 'h': h, 'real': (1 << r) - 1, 'tables': []})
+    # extension mode: one node and its edges, the first edge, or all edges come from a lexicon extension
+    for n, hs in ((3, range(1, 1 << 6)), (4, dag_masks(4))):
+        for h in hs:
+            ne = bin(h).count('1')
+            for xn, xe in ((1 << (n - 1), 0), (0, 1), (0, (1 << ne) - 1)):
+                if n == 3 or tier == 'thorough' or xn:
+                    gs.append({'n': n, 'loops': False, 'h': h, 'ext': {'nodes': xn, 'edges': xe}, 'scope': 'both',
+                               'tables': [tuple([2] * n), tuple((1, 5, 2, 10)[i] for i in range(n))]})
     if tier == 'quick':
         # the cyclic loop-free 4-node graphs: every 8th, rotating
         dags = set(dag_masks(4))
